@@ -382,7 +382,9 @@ class Observable(
         if isinstance(key, slice):
             start, stop, step = key.start, key.stop, key.step
         else:
-            start, stop, step = key, key + 1, 1
+            # -1 + 1 would give a stop of 0 (an empty slice): the last
+            # element is the open-ended slice [-1:]
+            start, stop, step = key, key + 1 if key != -1 else None, 1
 
         from ..operators._slice import slice_
 
